@@ -138,6 +138,8 @@ class Images(productmd.common.MetadataBase):
         self.header = Header(self, "productmd.images")
         self.compose = Compose(self)
         self.images = {}
+        # a new manifest is written in the current format: enforce its rules (image uniqueness) from the start
+        self.header.set_current_version()
 
     def __getitem__(self, variant):
         return self.images[variant]
